@@ -446,7 +446,11 @@ func longChainSpecs(prefix string) []specCase {
 // twoFilesProgram: two injector files in one package; the injector of the FIRST file (in file-name order) is
 // ill-formed in the given way, the one in the last file is well-formed. bad: 0 missing provider, 1 binding to a type
 // that does not implement the interface, 2 two sources for one type, 3 unused provider, 4 nothing wrong (control).
-func twoFilesProgram(bad int, swapNames bool) *ir.Program {
+func twoFilesProgram(bad int, swapNames bool) *ir.Program { return twoFilesProgramN(bad, swapNames, 0) }
+
+// twoFilesProgramN: as twoFilesProgram, with `extra` further well-formed injectors next to the well-formed one (the
+// file without the fault then holds 1+extra injectors).
+func twoFilesProgramN(bad int, swapNames bool, extra int) *ir.Program {
 	b := ir.NewBuilder()
 	p := b.Root
 	x, y, r1, r2 := b.Leaf(p, "X"), b.Leaf(p, "Y"), b.Leaf(p, "R1"), b.Leaf(p, "R2")
@@ -472,5 +476,10 @@ func twoFilesProgram(bad int, swapNames bool) *ir.Program {
 	if swapNames {
 		first.File, second.File = "b_inject.go", "a_inject.go" // the ill-formed one is in the last file
 	}
-	return &ir.Program{Root: p, Injectors: []*ir.Injector{first, second}}
+	injs := []*ir.Injector{first, second}
+	for k := 0; k < extra; k++ {
+		rk := b.Leaf(p, fmt.Sprintf("RX%d", k))
+		injs = append(injs, &ir.Injector{Name: fmt.Sprintf("InitExtra%d", k), Out: rk, File: second.File, Items: []*ir.Item{px, ir.FuncItem(&ir.Func{Pkg: p, Name: fmt.Sprintf("PRX%d", k), Params: []*ir.Type{x}, Out: rk})}})
+	}
+	return &ir.Program{Root: p, Injectors: injs}
 }
